@@ -19,7 +19,7 @@ from . import common
 
 ID = 'C03'
 LEVEL = 'exploration'
-RUNS = {'quick': 4000, 'thorough': 100000}
+RUNS = {'quick': 6000, 'thorough': 150000}
 SIM_TIME_UNIT = 'samples'
 RULE = ('seeded generation of (bounded-future specification, unit notation of every bound, sampling period/unit, trace of '
         'h+1..h+10 samples); every i >= h is a checked history; non-trivial = expected delayed output finite somewhere and not '
